@@ -49,7 +49,7 @@ Definition covers (pi : list nat) (n : nat) : Prop := forall i, i < n -> In i pi
 Lemma perm_covers : forall pi n, Permutation pi (seq 0 n) -> covers pi n.
 Proof.
   intros pi n P i Hi. apply Permutation_sym in P. eapply Permutation_in; [exact P|].
-  apply in_seq. lia.
+  apply in_seq. split; [apply Nat.le_0_l|exact Hi].
 Qed.
 
 Lemma existsb_eqb_in : forall j pi, existsb (Nat.eqb j) pi = true <-> In j pi.
@@ -94,7 +94,7 @@ Section Slots.
           rewrite Nat.eqb_refl. simpl.
           assert (j < List.length tasks) by (apply nth_error_Some; congruence).
           replace (Nat.ltb j (List.length slots)) with true; auto.
-          symmetry. apply Nat.ltb_lt. lia.
+          symmetry. apply Nat.ltb_lt. rewrite Hl. exact H.
         * destruct (nth_error tasks a); auto. rewrite nth_error_set_nth.
           rewrite Nat.eqb_sym in Eja. rewrite Eja. reflexivity.
     - unfold stepf. destruct (nth_error tasks a); auto. rewrite set_nth_length. auto.
@@ -220,7 +220,7 @@ Section NodeProofs.
     - rewrite Nat.add_0_r. reflexivity.
     - rewrite H2. assert (E : recover_t i (TOk y) = TOk y) by (destruct i; reflexivity).
       rewrite E. rewrite (IHpre t post _ (S i) H4).
-      replace (S i + List.length pre) with (i + S (List.length pre)) by lia.
+      replace (S i + List.length pre) with (i + S (List.length pre)) by (rewrite Nat.add_succ_r; reflexivity).
       destruct (recover_t (i + S (List.length pre)) (exec_invoke t)); auto.
       destruct (scan_invoke (S (i + S (List.length pre))) post); reflexivity.
   Qed.
@@ -271,7 +271,7 @@ Section NodeProofs.
     List.length (combine outs (map c_id calls)) = List.length calls.
   Proof.
     intros calls outs H. rewrite combine_length, map_length.
-    apply Forall2_length in H. lia.
+    apply Forall2_length in H. rewrite H. apply Nat.min_id.
   Qed.
 
   Lemma resolves_tasks : forall calls,
@@ -576,7 +576,7 @@ Proof.
   destruct (H 0 l eq_refl) as [Hp Hne]. rewrite Nat.add_0_r in Hp. rewrite Hp.
   f_equal.
   - destruct l; [congruence|reflexivity].
-  - apply IHids; [lia|]. intros k cs Hk. specialize (H (S k) cs Hk).
+  - apply IHids; [injection Hl; auto|]. intros k cs Hk. specialize (H (S k) cs Hk).
     rewrite Nat.add_succ_r in H. exact H.
 Qed.
 
@@ -596,14 +596,14 @@ Qed.
 Lemma stream_ids_mk : forall ids css, List.length ids = List.length css -> stream_ids (mk_streams ids css) = ids.
 Proof.
   unfold stream_ids, mk_streams. induction ids; destruct css; simpl; intros H; try discriminate; auto.
-  f_equal. apply IHids. lia.
+  f_equal. apply IHids. injection H; auto.
 Qed.
 
 Lemma stream_srcs_mk : forall ids css, List.length ids = List.length css ->
   stream_srcs (mk_streams ids css) = map (fun cs => (cs, @None N)) css.
 Proof.
   unfold stream_srcs, mk_streams. induction ids; destruct css; simpl; intros H; try discriminate; auto.
-  f_equal. apply IHids. lia.
+  f_equal. apply IHids. injection H; auto.
 Qed.
 
 Lemma chunks_at_map : forall css k, chunks_at k (map (fun cs => (cs, @None N)) css) =
